@@ -443,9 +443,10 @@ func (r *Registry) RemoveStaleMetrics() {
 	}
 }
 
-// Calculates a hash of both the label names and values.
+// Calculates the keys of the label names and of the label names and values.
+// The label names and the label values are joined with a separator byte that
+// occurs in neither, so different label sets always get different keys.
 func (r *Registry) HashLabels(labels prometheus.Labels) (metrics.LabelHash, []string) {
-	r.Hasher.Reset()
 	r.NameBuf.Reset()
 	r.ValueBuf.Reset()
 	labelNames := make([]string, 0, len(labels))
@@ -465,12 +466,10 @@ func (r *Registry) HashLabels(labels prometheus.Labels) (metrics.LabelHash, []st
 	}
 
 	lh := metrics.LabelHash{}
-	r.Hasher.Write(r.NameBuf.Bytes())
-	lh.Names = metrics.NameHash(r.Hasher.Sum64())
+	lh.Names = metrics.NameHash(r.NameBuf.String())
 
-	// Now add the values to the names we've already hashed.
-	r.Hasher.Write(r.ValueBuf.Bytes())
-	lh.Values = metrics.ValueHash(r.Hasher.Sum64())
+	// Now add the values to the names.
+	lh.Values = metrics.ValueHash(r.NameBuf.String() + r.ValueBuf.String())
 
 	return lh, labelNames
 }
